@@ -84,3 +84,13 @@ def run(model: Model, rep: Report, tier: str) -> None:
     (rep.refuted if problems else rep.proven)("R8.4", construct(f, "normalisation"), "; ".join(sorted(set(problems))), loc(f))
     classes = concrete_expression_classes(model)
     c13.r13_4(model, rep, classes)
+    # line 3 builds the counterfactual graph of outcomes-and-conditions itself: C18's construction rules are part of this property's cone
+    from . import c18
+    from ..report import Report as _Report
+
+    sub = _Report(rep.property_id, rep.tier)
+    c18.run(model, sub, tier)
+    rep.obligations.extend(sub.obligations)
+    rep.errors.extend(sub.errors)
+    for k, v in sub.floors.items():
+        rep.floors[k] = v
